@@ -10,6 +10,7 @@ names = sys.argv[1:]
 # evidence files describe the unchanged tree: keep them as they are (the runs below overwrite them)
 saved = {f: open(f, "rb").read() for f in glob.glob(ROOT + "/evidence/*.json")}
 import atexit
+atexit.register(lambda: subprocess.run([ROOT + "/check", "--extract"], cwd=ROOT, capture_output=True))  # generated files back to the clean tree
 def _restore():
     for f, b in saved.items():
         open(f, "wb").write(b)
